@@ -130,10 +130,16 @@ def _run_case(case, ctx):
         order = int(rs.randint(2, 5))
         data = decomp.make_data(rs, "tucker", dt, order=order)
         X = data["X"]
-        init = gen.choice(rs, ["svd", "svd", "random"])
+        cplx = bool(dt == "float64" and rs.rand() < 0.25)
+        if cplx:
+            X = X.astype(np.complex128) + 1j * rs.standard_normal(X.shape) * (float(np.max(np.abs(X))) or 1.0)
+        init = gen.choice(rs, ["svd", "svd", "random"]) if not cplx else "svd"
+        force_truncated = cplx   # symeig_svd forms M M^T and is only meaningful for real input
         n_iter = int(gen.choice(rs, [0, 1, 2, 5, 20]))
         tolv = float(gen.choice(rs, [1e-100, 1e-3]))
         svd = gen.choice(rs, ["truncated_svd", "truncated_svd", "symeig_svd"]) if dt == "float64" else "truncated_svd"
+        if force_truncated:
+            svd = "truncated_svd"
         seed = int(rs.randint(0, 2 ** 31 - 1))
         if g == "tucker":
             spec = gen.choice(rs, ["int", "list", "list", "same", "fraction"])
@@ -158,7 +164,7 @@ def _run_case(case, ctx):
             exp = [min(r, X.shape[m]) for r, m in zip(rank, modes)]
             (core, fs), _errs = D.partial_tucker(X, rank, modes=modes, n_iter_max=n_iter, init=init, tol=tolv, svd=svd, random_state=seed)
             rep_rank = None
-        desc = {"gen": g, "shape": list(X.shape), "rank_spec": rank, "modes": modes, "init": init, "n_iter_max": n_iter, "tol": tolv, "svd": svd, "dtype": dt}
+        desc = {"gen": g, "shape": list(X.shape), "rank_spec": rank, "modes": modes, "init": init, "n_iter_max": n_iter, "tol": tolv, "svd": svd, "dtype": "complex128" if cplx else dt}
         if max(exp) > 1 and sum(s > 1 for s in X.shape) > 1:
             ctx.nontriv(desc)
         ctx.sample({"case": desc}, 3)
@@ -179,7 +185,7 @@ def _run_case(case, ctx):
         otol = (2e3 * np.sqrt(eps)) if svd == "symeig_svd" else 500 * eps * max(X.shape)
         for f, m in zip(fs, modes):
             fh = ref.hp(f)
-            dev = np.max(np.abs(fh.T @ fh - np.eye(fh.shape[1])))
+            dev = np.max(np.abs(fh.conj().T @ fh - np.eye(fh.shape[1])))
             if dev > otol:
                 viol(g, "orthonormal", svd, "mode-%d factor deviates from orthonormal by %.3g (tol %.3g)" % (m, dev, otol), desc)
                 return
@@ -187,7 +193,7 @@ def _run_case(case, ctx):
         want, wabs, nt = ref.tucker_dense(X, [np.conj(ref.hp(f)).T for f in fs], modes)
         ok, worst = tol.formula_close(core, want, wabs, eps, nt)
         if not ok:
-            viol(g, "core-projection", "any", "core differs from the projection of the data onto the factors (err/bound %.3g)" % worst, desc)
+            viol(g, "core-projection", "complex" if cplx else "any", "core differs from the projection of the data onto the (conjugated) factors (err/bound %.3g)" % worst, desc)
         return
 
     if g in ("tt", "ttm"):
